@@ -166,10 +166,11 @@ func (bln Balloon) AvailMilliCpus() int {
 }
 
 func (bln Balloon) MaxAvailMilliCpus(freeCpus cpuset.CPUSet) int {
-	if bln.Def.MaxCpus == NoLimit {
-		return (bln.Cpus.Size() + freeCpus.Size()) * 1000
+	maxCpus := bln.Cpus.Size() + freeCpus.Size()
+	if bln.Def.MaxCpus != NoLimit && bln.Def.MaxCpus < maxCpus {
+		maxCpus = bln.Def.MaxCpus
 	}
-	return bln.Def.MaxCpus * 1000
+	return maxCpus * 1000
 }
 
 // New creates a new uninitialized balloons policy instance.
